@@ -180,128 +180,154 @@ macro_rules! h {
 }
 
 // ---- Model::init directly: 14 models x 3 interface kinds; `true` = supported today (golden table)
-//@ props=C11,C05,C12,C13 pick=direct:6 inst="ILI9341Rgb565 x Serial4Line" bounds="all options (2 colour orders x 8 orientations x 2 inversions x 4 refresh orders x valid size/offset) x symbolic index of the failing Interface call" timeout=600 mem=4
+//@ props=C11,C05,C12,C13 pick=direct:6@C12 inst="ILI9341Rgb565 x Serial4Line" bounds="all options (2 colour orders x 8 orientations x 2 inversions x 4 refresh orders x valid size/offset) x symbolic index of the failing Interface call" timeout=600 mem=4
 h!(c11_d_ili9341_565_s, 20, direct_h::<_, u8, 0>(ILI9341Rgb565, true));
-//@ props=C11,C05,C12,C13 pick=direct:6 inst="ILI9341Rgb565 x Parallel8Bit" bounds="same" timeout=600 mem=4
+//@ props=C11,C05,C12,C13 pick=direct:6@C12 inst="ILI9341Rgb565 x Parallel8Bit" bounds="same" timeout=600 mem=4
 h!(c11_d_ili9341_565_p8, 20, direct_h::<_, u8, 1>(ILI9341Rgb565, true));
-//@ props=C11,C05,C12,C13 pick=direct:6 inst="ILI9341Rgb565 x Parallel16Bit" bounds="same" timeout=600 mem=4
+//@ props=C11,C05,C12,C13 pick=direct:6@C12 inst="ILI9341Rgb565 x Parallel16Bit" bounds="same" timeout=600 mem=4
 h!(c11_d_ili9341_565_p16, 20, direct_h::<_, u16, 2>(ILI9341Rgb565, true));
-//@ props=C11,C05,C12,C13 pick=direct:6 inst="ILI9341Rgb666 x Serial4Line" bounds="same" timeout=600 mem=4
+//@ props=C11,C05,C12,C13 pick=direct:6@C12 inst="ILI9341Rgb666 x Serial4Line" bounds="same" timeout=600 mem=4
 h!(c11_d_ili9341_666_s, 20, direct_h::<_, u8, 0>(ILI9341Rgb666, true));
-//@ props=C11,C05,C12,C13 pick=direct:6 inst="ILI9341Rgb666 x Parallel8Bit" bounds="same" timeout=600 mem=4
+//@ props=C11,C05,C12,C13 pick=direct:6@C12 inst="ILI9341Rgb666 x Parallel8Bit" bounds="same" timeout=600 mem=4
 h!(c11_d_ili9341_666_p8, 20, direct_h::<_, u8, 1>(ILI9341Rgb666, true));
-//@ props=C11,C05,C12,C13 pick=direct:6 inst="ILI9341Rgb666 x Parallel16Bit" bounds="same" timeout=600 mem=4
+//@ props=C11,C05,C12,C13 pick=direct:6@C12 inst="ILI9341Rgb666 x Parallel16Bit" bounds="same" timeout=600 mem=4
 h!(c11_d_ili9341_666_p16, 20, direct_h::<_, u16, 2>(ILI9341Rgb666, true));
-//@ props=C11,C05,C12,C13 pick=direct:6 inst="ILI9342CRgb565 x Serial4Line" bounds="same" timeout=600 mem=4
+//@ props=C11,C05,C12,C13 pick=direct:6@C12 inst="ILI9342CRgb565 x Serial4Line" bounds="same" timeout=600 mem=4
 h!(c11_d_ili9342c_565_s, 20, direct_h::<_, u8, 0>(ILI9342CRgb565, true));
-//@ props=C11,C05,C12,C13 pick=direct:6 inst="ILI9342CRgb565 x Parallel8Bit" bounds="same" timeout=600 mem=4
+//@ props=C11,C05,C12,C13 pick=direct:6@C12 inst="ILI9342CRgb565 x Parallel8Bit" bounds="same" timeout=600 mem=4
 h!(c11_d_ili9342c_565_p8, 20, direct_h::<_, u8, 1>(ILI9342CRgb565, true));
-//@ props=C11,C05,C12,C13 pick=direct:6 inst="ILI9342CRgb565 x Parallel16Bit" bounds="same" timeout=600 mem=4
+//@ props=C11,C05,C12,C13 pick=direct:6@C12 inst="ILI9342CRgb565 x Parallel16Bit" bounds="same" timeout=600 mem=4
 h!(c11_d_ili9342c_565_p16, 20, direct_h::<_, u16, 2>(ILI9342CRgb565, true));
-//@ props=C11,C05,C12,C13 pick=direct:6 inst="ILI9342CRgb666 x Serial4Line" bounds="same" timeout=600 mem=4
+//@ props=C11,C05,C12,C13 pick=direct:6@C12 inst="ILI9342CRgb666 x Serial4Line" bounds="same" timeout=600 mem=4
 h!(c11_d_ili9342c_666_s, 20, direct_h::<_, u8, 0>(ILI9342CRgb666, true));
-//@ props=C11,C05,C12,C13 pick=direct:6 inst="ILI9342CRgb666 x Parallel8Bit" bounds="same" timeout=600 mem=4
+//@ props=C11,C05,C12,C13 pick=direct:6@C12 inst="ILI9342CRgb666 x Parallel8Bit" bounds="same" timeout=600 mem=4
 h!(c11_d_ili9342c_666_p8, 20, direct_h::<_, u8, 1>(ILI9342CRgb666, true));
-//@ props=C11,C05,C12,C13 pick=direct:6 inst="ILI9342CRgb666 x Parallel16Bit" bounds="same" timeout=600 mem=4
+//@ props=C11,C05,C12,C13 pick=direct:6@C12 inst="ILI9342CRgb666 x Parallel16Bit" bounds="same" timeout=600 mem=4
 h!(c11_d_ili9342c_666_p16, 20, direct_h::<_, u16, 2>(ILI9342CRgb666, true));
-//@ props=C11,C05,C12,C13 pick=direct:6 inst="ILI9486Rgb565 x Serial4Line (unsupported today)" bounds="same" timeout=600 mem=4
+//@ props=C11,C05,C12,C13 pick=direct:6@C12 inst="ILI9486Rgb565 x Serial4Line (unsupported today)" bounds="same" timeout=600 mem=4
 h!(c11_d_ili9486_565_s, 20, direct_h::<_, u8, 0>(ILI9486Rgb565, false));
-//@ props=C11,C05,C12,C13 pick=direct:6 inst="ILI9486Rgb565 x Parallel8Bit" bounds="same" timeout=600 mem=4
+//@ props=C11,C05,C12,C13 pick=direct:6@C12 inst="ILI9486Rgb565 x Parallel8Bit" bounds="same" timeout=600 mem=4
 h!(c11_d_ili9486_565_p8, 20, direct_h::<_, u8, 1>(ILI9486Rgb565, true));
-//@ props=C11,C05,C12,C13 pick=direct:6 inst="ILI9486Rgb565 x Parallel16Bit" bounds="same" timeout=600 mem=4
+//@ props=C11,C05,C12,C13 pick=direct:6@C12 inst="ILI9486Rgb565 x Parallel16Bit" bounds="same" timeout=600 mem=4
 h!(c11_d_ili9486_565_p16, 20, direct_h::<_, u16, 2>(ILI9486Rgb565, true));
-//@ props=C11,C05,C12,C13 pick=direct:6 inst="ILI9486Rgb666 x Serial4Line" bounds="same" timeout=600 mem=4
+//@ props=C11,C05,C12,C13 pick=direct:6@C12 inst="ILI9486Rgb666 x Serial4Line" bounds="same" timeout=600 mem=4
 h!(c11_d_ili9486_666_s, 20, direct_h::<_, u8, 0>(ILI9486Rgb666, true));
-//@ props=C11,C05,C12,C13 pick=direct:6 inst="ILI9486Rgb666 x Parallel8Bit" bounds="same" timeout=600 mem=4
+//@ props=C11,C05,C12,C13 pick=direct:6@C12 inst="ILI9486Rgb666 x Parallel8Bit" bounds="same" timeout=600 mem=4
 h!(c11_d_ili9486_666_p8, 20, direct_h::<_, u8, 1>(ILI9486Rgb666, true));
-//@ props=C11,C05,C12,C13 pick=direct:6 inst="ILI9486Rgb666 x Parallel16Bit" bounds="same" timeout=600 mem=4
+//@ props=C11,C05,C12,C13 pick=direct:6@C12 inst="ILI9486Rgb666 x Parallel16Bit" bounds="same" timeout=600 mem=4
 h!(c11_d_ili9486_666_p16, 20, direct_h::<_, u16, 2>(ILI9486Rgb666, true));
-//@ props=C11,C05,C12,C13 pick=direct:6 inst="ILI9488Rgb565 x Serial4Line" bounds="same" timeout=600 mem=4
+//@ props=C11,C05,C12,C13 pick=direct:6@C12 inst="ILI9488Rgb565 x Serial4Line" bounds="same" timeout=600 mem=4
 h!(c11_d_ili9488_565_s, 20, direct_h::<_, u8, 0>(ILI9488Rgb565, true));
-//@ props=C11,C05,C12,C13 pick=direct:6 inst="ILI9488Rgb565 x Parallel8Bit" bounds="same" timeout=600 mem=4
+//@ props=C11,C05,C12,C13 pick=direct:6@C12 inst="ILI9488Rgb565 x Parallel8Bit" bounds="same" timeout=600 mem=4
 h!(c11_d_ili9488_565_p8, 20, direct_h::<_, u8, 1>(ILI9488Rgb565, true));
-//@ props=C11,C05,C12,C13 pick=direct:6 inst="ILI9488Rgb565 x Parallel16Bit" bounds="same" timeout=600 mem=4
+//@ props=C11,C05,C12,C13 pick=direct:6@C12 inst="ILI9488Rgb565 x Parallel16Bit" bounds="same" timeout=600 mem=4
 h!(c11_d_ili9488_565_p16, 20, direct_h::<_, u16, 2>(ILI9488Rgb565, true));
-//@ props=C11,C05,C12,C13 pick=direct:6 inst="ILI9488Rgb666 x Serial4Line" bounds="same" timeout=600 mem=4
+//@ props=C11,C05,C12,C13 pick=direct:6@C12 inst="ILI9488Rgb666 x Serial4Line" bounds="same" timeout=600 mem=4
 h!(c11_d_ili9488_666_s, 20, direct_h::<_, u8, 0>(ILI9488Rgb666, true));
-//@ props=C11,C05,C12,C13 pick=direct:6 inst="ILI9488Rgb666 x Parallel8Bit" bounds="same" timeout=600 mem=4
+//@ props=C11,C05,C12,C13 pick=direct:6@C12 inst="ILI9488Rgb666 x Parallel8Bit" bounds="same" timeout=600 mem=4
 h!(c11_d_ili9488_666_p8, 20, direct_h::<_, u8, 1>(ILI9488Rgb666, true));
-//@ props=C11,C05,C12,C13 pick=direct:6 inst="ILI9488Rgb666 x Parallel16Bit" bounds="same" timeout=600 mem=4
+//@ props=C11,C05,C12,C13 pick=direct:6@C12 inst="ILI9488Rgb666 x Parallel16Bit" bounds="same" timeout=600 mem=4
 h!(c11_d_ili9488_666_p16, 20, direct_h::<_, u16, 2>(ILI9488Rgb666, true));
-//@ props=C11,C05,C12,C13 pick=direct:6 inst="ST7735s x Serial4Line" bounds="same" timeout=600 mem=4
+//@ props=C11,C05,C12,C13 pick=direct:6@C12 inst="ST7735s x Serial4Line" bounds="same" timeout=600 mem=4
 h!(c11_d_st7735s_s, 20, direct_h::<_, u8, 0>(ST7735s, true));
-//@ props=C11,C05,C12,C13 pick=direct:6 inst="ST7735s x Parallel8Bit" bounds="same" timeout=600 mem=4
+//@ props=C11,C05,C12,C13 pick=direct:6@C12 inst="ST7735s x Parallel8Bit" bounds="same" timeout=600 mem=4
 h!(c11_d_st7735s_p8, 20, direct_h::<_, u8, 1>(ST7735s, true));
-//@ props=C11,C05,C12,C13 pick=direct:6 inst="ST7735s x Parallel16Bit" bounds="same" timeout=600 mem=4
+//@ props=C11,C05,C12,C13 pick=direct:6@C12 inst="ST7735s x Parallel16Bit" bounds="same" timeout=600 mem=4
 h!(c11_d_st7735s_p16, 20, direct_h::<_, u16, 2>(ST7735s, true));
-//@ props=C11,C05,C12,C13 pick=direct:6 inst="ST7789 x Serial4Line" bounds="same" timeout=600 mem=4
+//@ props=C11,C05,C12,C13 pick=direct:6@C12 inst="ST7789 x Serial4Line" bounds="same" timeout=600 mem=4
 h!(c11_d_st7789_s, 20, direct_h::<_, u8, 0>(ST7789, true));
-//@ props=C11,C05,C12,C13 pick=direct:6 inst="ST7789 x Parallel8Bit" bounds="same" timeout=600 mem=4
+//@ props=C11,C05,C12,C13 pick=direct:6@C12 inst="ST7789 x Parallel8Bit" bounds="same" timeout=600 mem=4
 h!(c11_d_st7789_p8, 20, direct_h::<_, u8, 1>(ST7789, true));
-//@ props=C11,C05,C12,C13 pick=direct:6 inst="ST7789 x Parallel16Bit" bounds="same" timeout=600 mem=4
+//@ props=C11,C05,C12,C13 pick=direct:6@C12 inst="ST7789 x Parallel16Bit" bounds="same" timeout=600 mem=4
 h!(c11_d_st7789_p16, 20, direct_h::<_, u16, 2>(ST7789, true));
-//@ props=C11,C05,C12,C13 pick=direct:6 inst="ST7796 x Serial4Line" bounds="same" timeout=600 mem=4
+//@ props=C11,C05,C12,C13 pick=direct:6@C12 inst="ST7796 x Serial4Line" bounds="same" timeout=600 mem=4
 h!(c11_d_st7796_s, 20, direct_h::<_, u8, 0>(ST7796, true));
-//@ props=C11,C05,C12,C13 pick=direct:6 inst="ST7796 x Parallel8Bit" bounds="same" timeout=600 mem=4
+//@ props=C11,C05,C12,C13 pick=direct:6@C12 inst="ST7796 x Parallel8Bit" bounds="same" timeout=600 mem=4
 h!(c11_d_st7796_p8, 20, direct_h::<_, u8, 1>(ST7796, true));
-//@ props=C11,C05,C12,C13 pick=direct:6 inst="ST7796 x Parallel16Bit" bounds="same" timeout=600 mem=4
+//@ props=C11,C05,C12,C13 pick=direct:6@C12 inst="ST7796 x Parallel16Bit" bounds="same" timeout=600 mem=4
 h!(c11_d_st7796_p16, 20, direct_h::<_, u16, 2>(ST7796, true));
-//@ props=C11,C05,C12,C13 pick=direct:6 inst="RM67162 x Serial4Line" bounds="same" timeout=600 mem=4
+//@ props=C11,C05,C12,C13 pick=direct:6@C12 inst="RM67162 x Serial4Line" bounds="same" timeout=600 mem=4
 h!(c11_d_rm67162_s, 20, direct_h::<_, u8, 0>(RM67162, true));
-//@ props=C11,C05,C12,C13 pick=direct:6 inst="RM67162 x Parallel8Bit" bounds="same" timeout=600 mem=4
+//@ props=C11,C05,C12,C13 pick=direct:6@C12 inst="RM67162 x Parallel8Bit" bounds="same" timeout=600 mem=4
 h!(c11_d_rm67162_p8, 20, direct_h::<_, u8, 1>(RM67162, true));
-//@ props=C11,C05,C12,C13 pick=direct:6 inst="RM67162 x Parallel16Bit (unsupported today)" bounds="same" timeout=600 mem=4
+//@ props=C11,C05,C12,C13 pick=direct:6@C12 inst="RM67162 x Parallel16Bit (unsupported today)" bounds="same" timeout=600 mem=4
 h!(c11_d_rm67162_p16, 20, direct_h::<_, u16, 2>(RM67162, false));
-//@ props=C11,C05,C12,C13 pick=direct:6 inst="GC9107 x Serial4Line" bounds="same" timeout=600 mem=4
+//@ props=C11,C05,C12,C13 pick=direct:6@C12 inst="GC9107 x Serial4Line" bounds="same" timeout=600 mem=4
 h!(c11_d_gc9107_s, 20, direct_h::<_, u8, 0>(GC9107, true));
-//@ props=C11,C05,C12,C13 pick=direct:6 inst="GC9107 x Parallel8Bit" bounds="same" timeout=600 mem=4
+//@ props=C11,C05,C12,C13 pick=direct:6@C12 inst="GC9107 x Parallel8Bit" bounds="same" timeout=600 mem=4
 h!(c11_d_gc9107_p8, 20, direct_h::<_, u8, 1>(GC9107, true));
-//@ props=C11,C05,C12,C13 pick=direct:6 inst="GC9107 x Parallel16Bit (unsupported today)" bounds="same" timeout=600 mem=4
+//@ props=C11,C05,C12,C13 pick=direct:6@C12 inst="GC9107 x Parallel16Bit (unsupported today)" bounds="same" timeout=600 mem=4
 h!(c11_d_gc9107_p16, 20, direct_h::<_, u16, 2>(GC9107, false));
-//@ props=C11,C05,C12,C13 pick=direct:6 inst="GC9A01 x Serial4Line" bounds="same" timeout=900 mem=4
+//@ props=C11,C05,C12,C13 pick=direct:6@C12 inst="GC9A01 x Serial4Line" bounds="same" timeout=900 mem=4
 h!(c11_d_gc9a01_s, 20, direct_h::<_, u8, 0>(GC9A01, true));
-//@ props=C11,C05,C12,C13 pick=direct:6 inst="GC9A01 x Parallel8Bit" bounds="same" timeout=900 mem=4
+//@ props=C11,C05,C12,C13 pick=direct:6@C12 inst="GC9A01 x Parallel8Bit" bounds="same" timeout=900 mem=4
 h!(c11_d_gc9a01_p8, 20, direct_h::<_, u8, 1>(GC9A01, true));
-//@ props=C11,C05,C12,C13 pick=direct:6 inst="GC9A01 x Parallel16Bit" bounds="same" timeout=900 mem=4
+//@ props=C11,C05,C12,C13 pick=direct:6@C12 inst="GC9A01 x Parallel16Bit" bounds="same" timeout=900 mem=4
 h!(c11_d_gc9a01_p16, 20, direct_h::<_, u16, 2>(GC9A01, true));
 
 // ---- through the real Builder with a reset pin: reset timeline + programming + fault index
-//@ props=C11,C12,C13,C17 pick=bpin:3 inst="Builder+ILI9341Rgb565/u8/Serial, reset pin" bounds="all options x symbolic index of the failing pin/Interface operation" timeout=600 mem=4
+//@ props=C11,C12,C13,C17 pick=bpin:3@C12+C13 inst="Builder+ILI9341Rgb565/u8/Serial, reset pin" bounds="all options x symbolic index of the failing pin/Interface operation" timeout=600 mem=4
 h!(c17_pin_ili9341_565, 20, builder_pin_h::<_, u8, 0>(ILI9341Rgb565));
-//@ props=C11,C12,C13,C17 pick=bpin:3 inst="Builder+ILI9342CRgb666/u8/Parallel8, reset pin" bounds="same" timeout=600 mem=4
+//@ props=C11,C12,C13,C17 pick=bpin:3@C12+C13 inst="Builder+ILI9342CRgb666/u8/Parallel8, reset pin" bounds="same" timeout=600 mem=4
 h!(c17_pin_ili9342c_666, 20, builder_pin_h::<_, u8, 1>(ILI9342CRgb666));
-//@ props=C11,C12,C13,C17 pick=bpin:3 inst="Builder+ILI9486Rgb565/u16/Parallel16, reset pin" bounds="same" timeout=600 mem=4
+//@ props=C11,C12,C13,C17 pick=bpin:3@C12+C13 inst="Builder+ILI9486Rgb565/u16/Parallel16, reset pin" bounds="same" timeout=600 mem=4
 h!(c17_pin_ili9486_565, 20, builder_pin_h::<_, u16, 2>(ILI9486Rgb565));
-//@ props=C11,C12,C13,C17 pick=bpin:3 inst="Builder+ILI9488Rgb666/u8/Serial, reset pin" bounds="same" timeout=600 mem=4
+//@ props=C11,C12,C13,C17 pick=bpin:3@C12+C13 inst="Builder+ILI9488Rgb666/u8/Serial, reset pin" bounds="same" timeout=600 mem=4
 h!(c17_pin_ili9488_666, 20, builder_pin_h::<_, u8, 0>(ILI9488Rgb666));
-//@ props=C11,C12,C13,C17 pick=bpin:3 inst="Builder+ST7735s/u8/Serial, reset pin" bounds="same" timeout=600 mem=4
+//@ props=C11,C12,C13,C17 pick=bpin:3@C12+C13 inst="Builder+ST7735s/u8/Serial, reset pin" bounds="same" timeout=600 mem=4
 h!(c17_pin_st7735s, 20, builder_pin_h::<_, u8, 0>(ST7735s));
-//@ props=C11,C12,C13,C17 pick=bpin:3 inst="Builder+ST7789/u8/Serial, reset pin" bounds="same" timeout=600 mem=4
+//@ props=C11,C12,C13,C17 pick=bpin:3@C12+C13 inst="Builder+ST7789/u8/Serial, reset pin" bounds="same" timeout=600 mem=4
 h!(c17_pin_st7789, 20, builder_pin_h::<_, u8, 0>(ST7789));
-//@ props=C11,C12,C13,C17 pick=bpin:3 inst="Builder+ST7796/u16/Parallel16, reset pin" bounds="same" timeout=600 mem=4
+//@ props=C11,C12,C13,C17 pick=bpin:3@C12+C13 inst="Builder+ST7796/u16/Parallel16, reset pin" bounds="same" timeout=600 mem=4
 h!(c17_pin_st7796, 20, builder_pin_h::<_, u16, 2>(ST7796));
-//@ props=C11,C12,C13,C17 pick=bpin:3 inst="Builder+RM67162/u8/Serial, reset pin" bounds="same" timeout=600 mem=4
+//@ props=C11,C12,C13,C17 pick=bpin:3@C12+C13 inst="Builder+RM67162/u8/Serial, reset pin" bounds="same" timeout=600 mem=4
 h!(c17_pin_rm67162, 20, builder_pin_h::<_, u8, 0>(RM67162));
-//@ props=C11,C12,C13,C17 pick=bpin:3 inst="Builder+GC9107/u8/Parallel8, reset pin" bounds="same" timeout=600 mem=4
+//@ props=C11,C12,C13,C17 pick=bpin:3@C12+C13 inst="Builder+GC9107/u8/Parallel8, reset pin" bounds="same" timeout=600 mem=4
 h!(c17_pin_gc9107, 20, builder_pin_h::<_, u8, 1>(GC9107));
-//@ props=C11,C12,C13,C17 pick=bpin:3 inst="Builder+GC9A01/u8/Serial, reset pin" bounds="same" timeout=900 mem=4
+//@ props=C11,C12,C13,C17 pick=bpin:3@C12+C13 inst="Builder+GC9A01/u8/Serial, reset pin" bounds="same" timeout=900 mem=4
 h!(c17_pin_gc9a01, 20, builder_pin_h::<_, u8, 0>(GC9A01));
 // ---- without a reset pin (hook H1)
-//@ props=C11,C12,C13,C17 pick=bnopin:3 inst="Builder+ILI9341Rgb666/u8/Serial, no reset pin" bounds="same" timeout=600 mem=4
+//@ props=C11,C12,C13,C17 pick=bnopin:3@C12+C13 inst="Builder+ILI9341Rgb666/u8/Serial, no reset pin" bounds="same" timeout=600 mem=4
 h!(c17_nopin_ili9341_666, 20, builder_nopin_h::<_, u8, 0>(ILI9341Rgb666));
-//@ props=C11,C12,C13,C17 pick=bnopin:3 inst="Builder+ILI9342CRgb565/u16/Parallel16, no reset pin" bounds="same" timeout=600 mem=4
+//@ props=C11,C12,C13,C17 pick=bnopin:3@C12+C13 inst="Builder+ILI9342CRgb565/u16/Parallel16, no reset pin" bounds="same" timeout=600 mem=4
 h!(c17_nopin_ili9342c_565, 20, builder_nopin_h::<_, u16, 2>(ILI9342CRgb565));
-//@ props=C11,C12,C13,C17 pick=bnopin:3 inst="Builder+ILI9486Rgb666/u8/Serial, no reset pin" bounds="same" timeout=600 mem=4
+//@ props=C11,C12,C13,C17 pick=bnopin:3@C12+C13 inst="Builder+ILI9486Rgb666/u8/Serial, no reset pin" bounds="same" timeout=600 mem=4
 h!(c17_nopin_ili9486_666, 20, builder_nopin_h::<_, u8, 0>(ILI9486Rgb666));
-//@ props=C11,C12,C13,C17 pick=bnopin:3 inst="Builder+ILI9488Rgb565/u8/Parallel8, no reset pin" bounds="same" timeout=600 mem=4
+//@ props=C11,C12,C13,C17 pick=bnopin:3@C12+C13 inst="Builder+ILI9488Rgb565/u8/Parallel8, no reset pin" bounds="same" timeout=600 mem=4
 h!(c17_nopin_ili9488_565, 20, builder_nopin_h::<_, u8, 1>(ILI9488Rgb565));
-//@ props=C11,C12,C13,C17 pick=bnopin:3 inst="Builder+ST7789/u8/Parallel8, no reset pin" bounds="same" timeout=600 mem=4
+//@ props=C11,C12,C13,C17 pick=bnopin:3@C12+C13 inst="Builder+ST7789/u8/Parallel8, no reset pin" bounds="same" timeout=600 mem=4
 h!(c17_nopin_st7789, 20, builder_nopin_h::<_, u8, 1>(ST7789));
-//@ props=C11,C12,C13,C17 pick=bnopin:3 inst="Builder+ST7735s/u16/Parallel16, no reset pin" bounds="same" timeout=600 mem=4
+//@ props=C11,C12,C13,C17 pick=bnopin:3@C12+C13 inst="Builder+ST7735s/u16/Parallel16, no reset pin" bounds="same" timeout=600 mem=4
 h!(c17_nopin_st7735s, 20, builder_nopin_h::<_, u16, 2>(ST7735s));
-//@ props=C11,C12,C13,C17 pick=bnopin:3 inst="Builder+RM67162/u8/Parallel8, no reset pin" bounds="same" timeout=600 mem=4
+//@ props=C11,C12,C13,C17 pick=bnopin:3@C12+C13 inst="Builder+RM67162/u8/Parallel8, no reset pin" bounds="same" timeout=600 mem=4
 h!(c17_nopin_rm67162, 20, builder_nopin_h::<_, u8, 1>(RM67162));
-//@ props=C11,C12,C13,C17 pick=bnopin:3 inst="Builder+GC9107/u8/Serial, no reset pin" bounds="same" timeout=600 mem=4
+//@ props=C11,C12,C13,C17 pick=bnopin:3@C12+C13 inst="Builder+GC9107/u8/Serial, no reset pin" bounds="same" timeout=600 mem=4
 h!(c17_nopin_gc9107, 20, builder_nopin_h::<_, u8, 0>(GC9107));
-//@ props=C11,C12,C13,C17 pick=bnopin:3 inst="Builder+GC9A01/u8/Parallel8, no reset pin" bounds="same" timeout=900 mem=4
+//@ props=C11,C12,C13,C17 pick=bnopin:3@C12+C13 inst="Builder+GC9A01/u8/Parallel8, no reset pin" bounds="same" timeout=900 mem=4
 h!(c17_nopin_gc9a01, 20, builder_nopin_h::<_, u8, 1>(GC9A01));
+
+/// the interface kind each real transport announces, and a refusal seen through a real transport
+#[kani::proof]
+#[kani::unwind(20)]
+//@ props=C11,C07 inst="KIND of SpiInterface / ParallelInterface<Generic8BitBus|Generic16BitBus>; GC9107 and RM67162 on the real 16-bit parallel interface" bounds="constants; init with default options, reset pin" timeout=600 mem=4
+fn c11_transport_kinds() {
+    use crate::busenv::*;
+    use mipidsi::interface::{Interface, InterfaceKind, OutputBus, ParallelInterface, SpiInterface};
+    assert!(matches!(<SpiInterface<'static, SpiDev, SpiDc> as Interface>::KIND, InterfaceKind::Serial4Line), "[C11] SpiInterface is Serial4Line");
+    assert!(matches!(<Bus8 as OutputBus>::KIND, InterfaceKind::Parallel8Bit), "[C11][C07] Generic8BitBus is Parallel8Bit");
+    assert!(matches!(<Bus16 as OutputBus>::KIND, InterfaceKind::Parallel16Bit), "[C11][C07] Generic16BitBus is Parallel16Bit");
+    assert!(matches!(<ParallelInterface<Bus8, ParDc, ParWr> as Interface>::KIND, InterfaceKind::Parallel8Bit), "[C11] 8-bit parallel interface kind");
+    assert!(matches!(<ParallelInterface<Bus16, ParDc, ParWr> as Interface>::KIND, InterfaceKind::Parallel16Bit), "[C11] 16-bit parallel interface kind");
+    // a model that cannot drive a 16-bit bus refuses it before anything is strobed
+    let mut pw = ParWorld::new(0, true, 0);
+    let w: *mut ParWorld = &mut pw;
+    let di = ParallelInterface::new(bus16(w), ParDc(w), ParWr(w));
+    let r = Builder::new(GC9107, di).reset_pin(crate::env::Pin).init(&mut crate::env::NoDelay);
+    assert!(matches!(r, Err(InitError::InvalidConfiguration(ConfigurationError::UnsupportedInterface))), "[C11] GC9107 refuses the 16-bit parallel interface");
+    assert!(pw.edges == 0 && pw.ops == 0, "[C11] refused before any word is strobed");
+    let di = ParallelInterface::new(bus16(w), ParDc(w), ParWr(w));
+    let r = Builder::new(RM67162, di).reset_pin(crate::env::Pin).init(&mut crate::env::NoDelay);
+    assert!(matches!(r, Err(InitError::InvalidConfiguration(ConfigurationError::UnsupportedInterface))), "[C11] RM67162 refuses the 16-bit parallel interface");
+    assert!(pw.edges == 0 && pw.ops == 0, "[C11] refused before any word is strobed");
+    kani::cover!(pw.ops == 0, "cover: reached");
+}
